@@ -84,6 +84,10 @@ class Addr:
         """
         callback done via callLater
         """
+        if self.expiry is not None and self.expiry.active():
+            # dropped early (Tor reported an error for this name)
+            self.expiry.cancel()
+        self.expiry = None
         del self.map.addr[self.name]
         self.map.notify("addrmap_expired", *[self.name], **{})
 
